@@ -127,6 +127,9 @@ fn opts_pair(bits: u32) -> (Opts, Opts) {
     off.vowel = bits & 1 != 0;
     off.chandra = bits & 2 != 0;
     off.kar = bits & 4 != 0;
+    // bit 3 (used by the directed parts only): the candidate list is on - "not shown" then means the auxiliary text
+    off.fsug = bits & 8 != 0;
+    off.nodata = !off.fsug; // the list needs the bundled dictionary
     let mut on = off;
     on.karorder = true;
     (off, on)
@@ -140,7 +143,13 @@ struct Pair {
 fn type_keys(ctx: &Ctx, ks: &[K], case: &dyn Fn() -> Value) -> Result<String, Failure> {
     let mut last = String::new();
     for (c, m) in ks {
-        last = ctx.key(*c, *m, 0).map_err(|p| Failure::new(panic_kind(&p), p.to_string(), case()))?.text;
+        let r = ctx.key(*c, *m, 0).map_err(|p| Failure::new(panic_kind(&p), p.to_string(), case()))?;
+        // with the candidate list on, what is "shown" is also the first candidate: it is the composed text (no quotes are
+        // typed here, so no curling), never an older text with the waiting sign still in it
+        if !r.lonely && r.cands.first() != Some(&r.text) {
+            return Err(Failure::new("pending-sign-shown", format!("the list's first candidate is {:?} but the composed text is {:?}", r.cands.first(), r.text), case()));
+        }
+        last = r.text;
     }
     Ok(last)
 }
@@ -254,7 +263,7 @@ fn waiting_sign_inside_a_conjunct(run: &Run) {
     cons.sort();
     let signs = [("\u{09BF}", k("\u{09BF}")), ("\u{09C7}", k("\u{09C7}")), ("\u{09C8}", k("\u{09C8}"))];
     let (has, ka) = (k("\u{09CD}"), k("\u{0995}"));
-    let items: Vec<u32> = (0..8).collect();
+    let items: Vec<u32> = (0..16).collect();
     run.exhaustive(
         "waiting-sign-inside-a-conjunct-discarded-by-one-backspace",
         &items,
@@ -327,7 +336,7 @@ fn vowel_via_hasanta_after_a_left_sign(run: &Run) {
     let inv = layout_inverse(Layout::Synthetic);
     let k = |v: &str| -> K { *inv.get(v).unwrap_or_else(|| panic!("synthetic layout lacks {v:?}")) };
     let has = k("\u{09CD}");
-    let items: Vec<u32> = (0..8).collect();
+    let items: Vec<u32> = (0..16).collect();
     run.exhaustive(
         "independent-vowel-typed-as-hasanta-plus-sign-after-a-left-standing-sign",
         &items,
